@@ -67,3 +67,8 @@ func verifTimerWithin(t *time.Timer, exp uint32) bool { panic("intrinsic") } // 
 func verifCommitCount(db *sql.DB) int                 { panic("intrinsic") } // number of times the committed state of db was replaced
 
 func verifFaults(db *sql.DB, budget int) { panic("intrinsic") } // enable symbolic fault injection on Begin/Exec/Commit
+
+func verifRegisterStore(db *sql.DB, dsnPath string) { panic("intrinsic") }
+func verifStoreExists(dsnPath string) bool          { panic("intrinsic") }
+func verifDBClosed(db *sql.DB) bool                 { panic("intrinsic") }
+func verifFSSet(path string, exists bool)           { panic("intrinsic") }
